@@ -38,6 +38,7 @@ type Analyzer struct {
 	// instead of failure at calls that leave the analysed scope.
 	heap          *typeHeap
 	objType       map[int]types.Type
+	ptrTypes      map[types.Type]bool
 	JoinLoops     bool
 	ExternalHavoc bool
 	notes         map[string]int // soundly over-approximated constructs, counted
@@ -79,7 +80,7 @@ type Analyzer struct {
 func NewAnalyzer(p *load.Program) *Analyzer {
 	a := &Analyzer{P: p, MaxDepth: DefaultMaxDepth, UnrollLimit: DefaultUnrollLimit, MaxPaths: DefaultMaxPaths,
 		objIDs: map[string]int{}, base: map[int]Value{}, initDone: map[*ssa.Package]bool{}, fnInfos: map[*ssa.Function]*fnInfo{},
-		objType: map[int]types.Type{}, notes: map[string]int{}}
+		objType: map[int]types.Type{}, ptrTypes: map[types.Type]bool{}, notes: map[string]int{}}
 	for _, pk := range p.Pkgs {
 		if pk.TypesSizes != nil {
 			a.sizes = pk.TypesSizes
